@@ -66,6 +66,7 @@ ENGINE_TIMEOUT = 60
 
 import logging as _logging
 from streamflow.log_handler import logger as _sf_logger
+from harness.lib.looputil import permute_ready
 _sf_logger.setLevel(_logging.CRITICAL + 1)
 
 
@@ -577,10 +578,7 @@ class PermutingLoop(asyncio.SelectorEventLoop):
 
     def _run_once(self):
         if self._rng is not None and len(self._ready) > 1:
-            items = list(self._ready)
-            self._rng.shuffle(items)
-            self._ready.clear()
-            self._ready.extend(items)
+            permute_ready(self._ready, self._rng.shuffle)   # thread-safe, same order (harness/lib/looputil.py)
         super()._run_once()
 
 
